@@ -53,9 +53,63 @@ def got_notes(findings, cat, name):
     return res
 
 
+HK = {'ssh-ed25519': {'t': 'ed25519'}, 'ssh-ed448': {'t': 'ed448'}, 'ecdsa-sha2-nistp256': {'t': 'ecdsa', 'curve': 'nistp256'}}
+PROBED_NEIGHBOURS = {
+    # name -> blob spec of a neighbour whose probe also measures something (and earns notes of its own)
+    'ssh-ed25519-cert-v01@openssh.com': {'t': 'cert', 'kind': 'ssh-ed25519-cert-v01@openssh.com', 'ca': {'t': 'ecdsa', 'curve': 'nistp256'}},
+    'ssh-rsa-cert-v01@openssh.com': {'t': 'cert', 'kind': 'ssh-rsa-cert-v01@openssh.com', 'bits': 1024, 'ca': {'t': 'rsa', 'bits': 1024}},
+    'rsa-sha2-512': {'t': 'rsa', 'bits': 1024}, 'ssh-rsa': {'t': 'rsa', 'bits': 1024}, 'rsa-sha2-256': {'t': 'rsa', 'bits': 1024},
+}
+GEX1, GEX256 = 'diffie-hellman-group-exchange-sha1', 'diffie-hellman-group-exchange-sha256'
+
+
+def eval_probed(case):
+    """With the probes answered: the notes of one algorithm (whose own measured attribute is fixed) audited alone
+    and audited beside neighbours that are measured too - they may not differ."""
+    cat, name = case['cat'], case['name']
+    fails, seen = [], {}
+    for variant in ('alone', 'beside'):
+        keys = [name] if cat == 'key' else ['ssh-ed25519']
+        kex = ['curve25519-sha256'] + ([name] if cat == 'kex' else [])
+        hostkeys = dict(HK)
+        mba = {name: case['moduli']} if cat == 'kex' else {}
+        if variant == 'beside':
+            if cat == 'key':
+                keys = [n for n in case['before']] + [name] + [n for n in case['after']]
+                for n in keys:
+                    if n in PROBED_NEIGHBOURS:
+                        hostkeys[n] = PROBED_NEIGHBOURS[n]
+                if any(n in ('ssh-rsa', 'rsa-sha2-256', 'rsa-sha2-512') for n in keys):
+                    for n in ('ssh-rsa', 'rsa-sha2-256', 'rsa-sha2-512'):
+                        hostkeys[n] = {'t': 'rsa', 'bits': 1024}
+            else:
+                other = GEX1 if name == GEX256 else GEX256
+                kex = ['curve25519-sha256'] + ([other, name] if case['order'] else [name, other])
+                mba[other] = case['other_moduli']
+        spec = {'banner': case['banner'], 'kex': kex, 'key': keys, 'hostkeys': hostkeys, 'moduli': [], 'moduli_by_alg': mba, 'gex_style': case.get('style', 'openssh')}
+        if cat == 'kex' and case.get('other_style'):
+            spec['gex_style_by_alg'] = {(GEX1 if name == GEX256 else GEX256): case['other_style']}
+        for view in ('text', 'json'):
+            net = fakenet.FakeNet()
+            net.add('h', 22, fakenet.Server(spec))
+            r = drive.run_cli(['-n'] + (['-j'] if view == 'json' else []) + ['--skip-rate-test', 'h'], net)
+            if r.exc or r.hang or r.code not in (0, 2, 3):
+                fails.append([drive.crash_sig(r) if r.exc else 'no-report', r.brief()])
+                continue
+            finds = report.JsonReport(json.loads(r.out)).findings() if view == 'json' else report.TextReport(r.out).findings()
+            seen[(variant, view)] = got_notes(finds, cat, name)
+    for view in ('text', 'json'):
+        a, b = seen.get(('alone', view)), seen.get(('beside', view))
+        if a is not None and b is not None and a != b:
+            fails.append(['notes-change-with-measured-neighbours-%s' % view, '%s %s: alone %r, beside %r it shows %r' % (cat, name, {k: dict(v) for k, v in a.items()}, case.get('before', []) + case.get('after', []) or case.get('other_moduli'), {k: dict(v) for k, v in b.items()})])
+    return mkres(case, nt=True, classes=['probed', 'cat:' + cat], fails=fails)
+
+
 def eval_case(case):
     db = gens.db()
     fails = []
+    if case['kind'] == 'probed':
+        return eval_probed(case)
     if case['kind'] == 'lookup':
         name = case['name']
         net = fakenet.FakeNet()
@@ -227,8 +281,28 @@ def run(ctx):
     look = [{'kind': 'lookup', 'name': n} for n in sorted({n for c in CATS for n in db[c]})]
     look += [{'kind': 'lookup', 'name': n} for n in ('no-such-algorithm', 'aes128-ctr-x', 'curve25519', 'hmac-sha9')]
     ctx.map(look)
+    import itertools
+    probed = []
+    nb = sorted(PROBED_NEIGHBOURS)
+    for name in sorted(HK):
+        for k in (1, 2):
+            for combo in itertools.permutations(nb, k):
+                for split in range(k + 1):
+                    probed.append({'kind': 'probed', 'cat': 'key', 'name': name, 'before': list(combo[:split]), 'after': list(combo[split:]), 'banner': 'SSH-2.0-OpenSSH_8.0'})
+    for name in (GEX1, GEX256):
+        for mine in ([3072], [4096], [2048], [1024], [2048, 3072], []):
+            for other in ([2048, 4096], [1024], [3072], [2048], []):
+                for banner in ('SSH-2.0-OpenSSH_8.0', 'SSH-2.0-dropbear_2020.81'):
+                    for order in (0, 1):
+                        probed.append({'kind': 'probed', 'cat': 'kex', 'name': name, 'moduli': mine, 'other_moduli': other, 'banner': banner, 'order': order, 'style': 'openssh' if 'OpenSSH' in banner else 'roundup'})
+                        if 'OpenSSH' in banner:
+                            probed.append({'kind': 'probed', 'cat': 'kex', 'name': name, 'moduli': mine, 'other_moduli': other, 'banner': banner, 'order': order, 'style': 'roundup', 'other_style': 'openssh'})
+    if ctx.quick:
+        rng.shuffle(probed)
+        probed = probed[:600]
+    ctx.map(probed)
     ctx.hyp('strat_scan', 8000 if ctx.quick else 100000, label=1)
     ctx.exhaustive = True
     ctx.note(database_names=sum(len(gens.db_names(c)) for c in CATS), lookups=len(look), explanation='exhaustive flag: every database name of every category is audited at least once in text and JSON and looked up once')
     return ctx.finish('exploration', 'every database name of every category (exhaustive) at seeded list positions among seeded neighbours plus its singleton run, every gss-* prefix with three suffixes, --lookup of every name, Hypothesis scans (db / gss / unknown target, random position, neighbours, role); each scan rendered as text and JSON; non-trivial = target not first, or >= 7 names in total, or gss / unknown target, or a lookup',
-                      assumptions=['no probe is answered, so no measured attribute enters; Terrapin context is added to the expectation by the published rule (C04)'])
+                      assumptions=['in the table-reference families no probe is answered, so no measured attribute enters (the probed family compares a run with itself beside measured neighbours); Terrapin context is added to the expectation by the published rule (C04)'])
